@@ -20,7 +20,7 @@ type ltxState struct {
 	// Before state
 	before        int
 	processBefore bool
-	beforeBuf     chan *bytes.Buffer
+	beforeBuf     []*bytes.Buffer
 
 	// After state
 	after        int
@@ -60,9 +60,6 @@ func (f *readFile) filterWithLContext(ctx context.Context, ltx lcontext.LContext
 	// Scenario 2: Print prev. N lines when current line matches.
 	ls.before = ltx.BeforeContext
 	ls.processBefore = ls.before > 0
-	if ls.processBefore {
-		ls.beforeBuf = make(chan *bytes.Buffer, ls.before)
-	}
 
 	// Screnario 3: Print next N lines when current line matches.
 	ls.after = 0
@@ -155,13 +152,15 @@ func (f *readFile) lContextNotMatched(ctx context.Context, ls *ltxState,
 		}
 
 	} else if ls.processBefore {
-		// Keep last num BeforeContext raw messages.
-		select {
-		case ls.beforeBuf <- rawLine:
-		default:
-			pool.RecycleBytesBuffer(<-ls.beforeBuf)
-			ls.beforeBuf <- rawLine
+		// Keep last num BeforeContext raw messages. The buffer grows with the
+		// lines actually held (the requested context size comes from the client
+		// and may be arbitrarily large).
+		if len(ls.beforeBuf) >= ls.before {
+			pool.RecycleBytesBuffer(ls.beforeBuf[0])
+			ls.beforeBuf[0] = nil
+			ls.beforeBuf = ls.beforeBuf[1:]
 		}
+		ls.beforeBuf = append(ls.beforeBuf, rawLine)
 	}
 
 	return continueReading
@@ -172,24 +171,19 @@ func (f *readFile) lContextProcessBefore(ctx context.Context,
 	ls *ltxState, lines chan<- *line.Line, rawLine *bytes.Buffer) readStatus {
 
 	i := uint64(len(ls.beforeBuf))
-	for {
-		select {
-		case rawLine := <-ls.beforeBuf:
-			myLine := line.New(rawLine, f.totalLineCount()-i, 100, f.globID)
-			i--
+	for k, rawLine := range ls.beforeBuf {
+		myLine := line.New(rawLine, f.totalLineCount()-i, 100, f.globID)
+		i--
+		ls.beforeBuf[k] = nil
 
-			select {
-			case lines <- myLine:
-			case <-ctx.Done():
-				return abortReading
-			}
-		default:
-			// beforeBuf is now empty.
-		}
-		if len(ls.beforeBuf) == 0 {
-			break
+		select {
+		case lines <- myLine:
+		case <-ctx.Done():
+			return abortReading
 		}
 	}
+	// beforeBuf is now empty.
+	ls.beforeBuf = ls.beforeBuf[:0]
 
 	return nothing
 }
